@@ -407,6 +407,12 @@ func runRC(p *Plan, keep bool, mode string) *Outcome {
 		add := func(oracle, format string, a ...any) {
 			out.Violations = append(out.Violations, Violation{Prop: "C03", Oracle: oracle, Msg: fmt.Sprintf(format, a...), Step: e.Step, FakeNS: int64(e.Now())})
 		}
+		if n := e.MaxInstantSteps; n > 20000 {
+			// the run consumed its steps at one simulated instant: some goroutine
+			// of the region client loops without waiting (a reader that does not
+			// give up on a dead stream keeps every outstanding call waiting)
+			add("spins", "%d consecutive scheduler steps without the simulated clock advancing (run ended: %s): a goroutine of the region client loops instead of failing the connection", n, reason)
+		}
 		if cn := garbageConn; cn != nil && (!cn.IsClosed() || cn.ClosedAt > garbageT) {
 			// no time passes in these runs while something can still be delivered
 			// or run: the frame has been read, and the stream is unusable
